@@ -47,7 +47,7 @@ def parseSpecs (s : String) : Option (List SortSpec) :=
 
 def parseGlobs (s : String) : Option (List (Pattern Bytes)) :=
   if s = "-" then some [] else
-  (s.splitOn ",").foldr (fun x acc => match bytesOfHex x, acc with
+  (s.splitOn ",").foldr (fun x acc => match (if x = "~" then some [] else bytesOfHex x), acc with
     | some g, some l =>
       if g.head? == some 33 then some (⟨g.tail, false⟩ :: l) else some (⟨g, true⟩ :: l)
     | _, _ => none) (some [])
